@@ -85,7 +85,10 @@ def c01(tier, seed):
         tc = tc[::2]
     return run_onestep('C01', tier, seed, ['mem', 'alt:/a'], ['mem', 'alt:/a', 'alt:/a/b', 'alt:', 'altalt'],
                        onestep.PRIMS + onestep.OBSERVERS + onestep.COMPOSITES, overlay_plan=plan,
-                       more=[(transfer.run_transfer_case, tc, 'copy/move transfers (source of the right type) against the contract')])
+                       more=[(transfer.run_transfer_case, tc, 'copy/move transfers (source of the right type) against the contract'),
+                             (overlay.run_history_case, plain_history_cases('U4', 'mem', ['C01'], seed, 12 if tier == 'quick' else 40, 6 if tier == 'quick' else 30, 4, 'C01') +
+                              plain_history_cases('U4', 'alt', ['C01'], seed, 6 if tier == 'quick' else 20, 4 if tier == 'quick' else 20, 4, 'C01'),
+                              'multi-step histories (4 calls) on one MemoryFS / AltrootFS: state carried between calls beside the tree')])
 
 
 @prop('C03')
@@ -269,6 +272,36 @@ def ovl_cases(universe, nlayers, props_, seed, ncfg=None, k1_ops=None, k2=0, k3=
             hs = [h_ for h_ in hs if not any(st_[0] in ('create_dir', 'create_dir_all') and st_[1] in fonly for st_ in h_)]
         cases.append({'universe': universe, 'nlayers': nlayers, 'cfg': cfg, 'histories': hs, 'props': props_, 'layer_kind': layer_kind, 'tag': tag,
                       'lower_markers': lower_markers})
+    return cases
+
+
+def plain_history_cases(universe, kind, props_, seed, nshapes, khist, length, tag):
+    """random multi-step histories on one MemoryFS / AltrootFS from seeded trees (same runner as the overlay histories)"""
+    from . import overlay
+    u = UNIVERSES[universe]()
+    rng = random.Random(seed * 31 + length)
+    shs = shapes(u)
+    rng.shuffle(shs)
+    real = [v for v in u.vars if v != 'R']
+    ops = overlay.HIST_OPS
+    cases = []
+    for sh in shs[:nshapes]:
+        cfg = tuple((v, k, frozenset([0])) for v, k in sh)
+        hs = []
+        for _ in range(khist):
+            # biased towards rewriting and removing what exists (state carried between calls), then the parent
+            h_ = []
+            for _j in range(length):
+                h_.append((rng.choice(ops), rng.choice(real)))
+            hs.append(h_)
+        for v, k in sh:
+            if k == 'f':
+                par = u.parent(v)
+                hs.append([('write', v), ('write', v), ('remove_file', v)] + ([('remove_dir', par)] if par != 'R' else []))
+                hs.append([('append', v), ('remove_file', v), ('write', v), ('remove_file', v)] + ([('remove_dir', par)] if par != 'R' else []))
+            else:
+                hs.append([('remove_dir_all', v), ('create_dir', v), ('remove_dir', v)])
+        cases.append({'universe': universe, 'nlayers': 1, 'cfg': cfg, 'histories': hs, 'props': props_, 'layer_kind': 'mem', 'tag': tag, 'plain': kind})
     return cases
 
 
@@ -886,7 +919,7 @@ def c02(tier, seed):
     prog = load_program()
     ck.selftest = quick_selftest(prog, seed, 40 if tier == 'quick' else 400, kinds=['phys', 'altphys', 'ovlphys', 'mem'])
     u = UNIVERSES['U5']()
-    ops = [(op, v) for op in ALL_OPS + ['hopen', 'create_hold', 'append_hold'] for v in u.vars]
+    ops = [(op, v) for op in ALL_OPS + ['hopen', 'create_hold', 'append_hold', 'rewrite_then_remove', 'recreate_dir_cycle'] for v in u.vars]
     cases = [{'universe': 'U5', 'shape': sh, 'ops': ops} for sh in shapes(u)]
     ck.add(run_cases(prog, mod.run_diff_case, cases), 'every primitive/observer/composite on every path from every well-formed tree, MemoryFS vs PhysicalFS@OSM in lock-step')
     ut = UNIVERSES['UT']()
